@@ -38,6 +38,7 @@ import Bmc.Proofs.GenDec.AES128CBC
 import Bmc.Proofs.EndToEnd.SafeC05
 import Bmc.Proofs.C13Source
 import Bmc.Proofs.SourcePins
+import Bmc.Proofs.EndToEnd.HistoryC05
 #print axioms Bmc.Proofs.C05.deviceID_total
 #print axioms Bmc.Proofs.C05.deviceID_safe
 #print axioms Bmc.Proofs.C05.chassis_total
@@ -166,3 +167,5 @@ import Bmc.Proofs.SourcePins
 #print axioms Bmc.Proofs.EndToEnd.generated_parseCipherSuiteRecordData_safe
 #print axioms Bmc.Proofs.C13.transport_source
 #print axioms Bmc.Proofs.SourcePins.pinned_sources
+#print axioms Bmc.Proofs.EndToEnd.modelResults_no_panic
+#print axioms Bmc.Proofs.EndToEnd.generated_history_never_panics
